@@ -2,6 +2,7 @@
   Kernel tie: `AccountSummary.Unspend` (x/subaccount/types/accsummary.go) = the model's `Summary.unspend`.
 -/
 import Sge.Gen.Kernels
+import SgeProofs.Lemmas.KernelsTie
 import Sge.Subaccount
 namespace Sge.KernelsTie
 open Sge Sge.Subaccount Sge.Gen.Kernels
@@ -12,7 +13,7 @@ theorem krn_tie_SubUnspend (s : Summary) (amt : Int) :
     (subaccount_AccountSummary_Unspend s.spent amt).map (fun x => { s with spent := x }) = s.unspend amt := by
   unfold subaccount_AccountSummary_Unspend Summary.unspend
   try unfold subaccount_AccountSummary_Available Summary.available
-  (repeat' split) <;> first | rfl | (exfalso; omega) | (simp only [Option.map, Option.some.injEq, Summary.mk.injEq, true_and, and_true] <;> omega)
+  krn_close [Summary.mk.injEq]
 
 example : subaccount_AccountSummary_Unspend 20 20 = some 0 ∧ subaccount_AccountSummary_Unspend 20 21 = none ∧ subaccount_AccountSummary_Unspend 20 (-1) = none := by decide +kernel
 
